@@ -153,7 +153,7 @@ def main_check(args):
         if fails:
             inconclusive.append("reference model no longer matches pinned programs: %r" % (fails[:2],))
     nshards = getattr(mod, "SHARDS", {}).get(tier, NCPU)
-    timeout = getattr(mod, "TIMEOUT", {}).get(tier, 900 if tier == "quick" else 7200)
+    timeout = getattr(mod, "TIMEOUT", {}).get(tier, 900 if tier == "quick" else 14400)
     if hasattr(mod, "custom_run"):
         results, problems = mod.custom_run(tier, seed, timeout)
     else:
